@@ -303,6 +303,19 @@ class Engine:
                 self.stats.bound_hits += 1
                 k = str(b) or "bound"
                 self.stats.bound_notes[k] = self.stats.bound_notes.get(k, 0) + 1
+            except Inconclusive as e:
+                # this path cannot be decided (unsupported construct, solver unknown): the run as a whole is
+                # inconclusive (never exit 0), but the other paths are still explored - a reproducible violation
+                # elsewhere is worth more than an early stop
+                self.stats.errors.append("inconclusive: " + str(e))
+                if len(self.stats.errors) > 25:
+                    return False
+                continue
+            except Exception:
+                self.stats.errors.append("worker exception:\n" + traceback.format_exc())
+                if len(self.stats.errors) > 25:
+                    return False
+                continue
             self.stats.paths += 1
             if stop_on_fail and self.stats.failed:
                 return False
@@ -391,7 +404,7 @@ def explore_parallel(spec, nproc=None, budget=40, time_limit=None, seed_paths=24
                 else:
                     still.append(r)
             inflight = still
-            if total.errors:
+            if len(total.errors) > 200:
                 exhausted = False
                 break
             if not progressed:
